@@ -28,3 +28,38 @@ def bounded_checks(tier, seed, repo):
 scenario('C11', 'dmrg.no_raise_shape_frame', ['torchtt._dmrg.dmrg_matvec_python', 'torchtt._dmrg.dmrg_hadamard_python', 'torchtt._tt_base.TT.fast_matvec'],
          quick=[g for g in _c06.grid_dmrg() if g['nswp'] == 1], thorough=_c06.grid_dmrg() + [dict(which='fast_matvec', d=3, nswp=1, guess=True)],
          replay='dmrg_frame', max_paths=4000)(_c06.dmrg_frame)
+
+
+def grid_amen():
+    return [dict(which=w, d=d, guess=g) for w in ('amen_mv', 'amen_mm') for d in (1, 2) for g in (False, True)]
+
+
+@scenario('C11', 'amen.no_raise_shape_frame', ['torchtt._amen.amen_mv', 'torchtt._amen.amen_mm', 'torchtt._amen._amen_mm_python'],
+          quick=[g for g in grid_amen() if g['d'] == 1 or not g['guess']], thorough=grid_amen(), replay=None, max_paths=6000)
+def amen_frame(ob, which, d, guess):
+    """amen_mv / amen_mm (one sweep; sizes, ranks symbolic; all value-dependent branches explored): no exception for compatible
+    operands, result well formed with the shape of the exact product, operands and the initial guess untouched"""
+    from . import hooks
+    ex = ob.ex
+    hooks.install(ex)
+    A = ob.tt('A', d, ttm=True, dtype='float64')
+    f = ex.module('torchtt._amen').env[which]
+    if which == 'amen_mv':
+        x = ob.tt('x', d, N=A.N_, dtype='float64')
+        g = ob.tt('g', d, N=A.M_, dtype='float64') if guess else None
+        r = ex.call(f, [A, x], {'nswp': 1, 'x0': g})
+        ob.wf(r)
+        fl = fields(ob, r)
+        ob.prove('kind', fl['is_ttm'] is False)
+        all_eq(ob, 'N', fl['N'], A.M_)
+    else:
+        B = ob.tt('B', d, ttm=True, M=A.N_, dtype='float64')
+        g = ob.tt('g', d, ttm=True, M=A.M_, N=B.N_, dtype='float64') if guess else None
+        r = ex.call(f, [A, B], {'nswp': 1, 'X0': g})
+        ob.wf(r)
+        fl = fields(ob, r)
+        ob.prove('kind', fl['is_ttm'] is True)
+        if fl['is_ttm']:
+            all_eq(ob, 'M', fl['M'], A.M_)
+            all_eq(ob, 'N', fl['N'], B.N_)
+    ob.frame()
